@@ -161,6 +161,31 @@ pub fn run(sc: &Scenario, stats: &mut Stats) {
     let wire: Wire = new_wire(0);
     wire.borrow_mut().log_write_docs = true;
     let mut conn = Connection::new(Sock(wire.clone()));
+    // Every third scenario starts on a connection that has been used before: a call enqueued and flushed by
+    // hand, its reply received.  That exchange is complete; the chain that follows owes and is owed nothing from it.
+    // (It happens before the trace starts: the scripted transport is silent meanwhile and wiped afterwards.)
+    if sc.sid.bytes().map(|b| b as usize).sum::<usize>() % 3 == 0 {
+        {
+            let mut w = wire.borrow_mut();
+            w.log_reads = false;
+            w.log_writes = false;
+            w.log_write_docs = false;
+        }
+        let pre = Call::new(MEnum::Echo { i: 0, pad: "pre".into() });
+        let _ = conn.enqueue_call(&pre);
+        let _ = block_on(conn.flush());
+        wire.borrow_mut().inb.push_back(Some(b"{\"parameters\":{\"s\":\"pre\",\"i\":0}}\0".to_vec()));
+        let _ = block_on(conn.receive_reply::<RBorrow<'_>, UErrB<'_>>());
+        let mut w = wire.borrow_mut();
+        w.out.clear();
+        w.writes.clear();
+        w.write_calls = 0;
+        w.fills.clear();
+        w.delivered = 0;
+        w.log_reads = true;
+        w.log_writes = true;
+        w.log_write_docs = true;
+    }
     let calls: Vec<Call<MEnum<'static>>> = sc
         .calls
         .iter()
@@ -235,13 +260,61 @@ pub fn run(sc: &Scenario, stats: &mut Stats) {
             }
         };
         ev(json!({"ev":"sent"}));
-        let mut stream = pin!(stream);
+        let mut stream = Box::pin(stream);
         // (index, the item itself, address and length of the string it borrows, its bytes when yielded)
         // ... and the marks (transport reads, frees) at the time it was yielded
         let mut held: Vec<(usize, Item<'_>, usize, usize, Vec<u8>, usize, usize)> = Vec::new();
         let mut nitems = 0usize;
         let mut script: std::collections::VecDeque<Step> = sc.steps.iter().cloned().collect();
         let mut budget = 4 * sc.frames.len() + sc.steps.len() + 16;
+        macro_rules! check_held {
+            () => {{
+                // what safe code sees when it looks at the items it still holds
+                for (k, _it, ptr, len, saved, fills_mark, freed_mark) in &held {
+                    // The bytes the held reference points to (what `item.s` would read). They are read
+                    // as plain bytes: after the defect under study they need not be UTF-8 any more.
+                    let now = unsafe { std::slice::from_raw_parts(*ptr as *const u8, *len) };
+                    stats.held_checks += 1;
+                    let same = now == &saved[..];
+                    if !same {
+                        stats.held_changed += 1;
+                    }
+                    if same {
+                        ev(json!({"ev":"check","k":k,"same":true}));
+                        continue;
+                    }
+                    // Measurements for the judgement of a change (all positions relative to the item's first byte):
+                    // the runs of changed bytes, the memory the transport reads issued since the item was yielded
+                    // were given to fill plus the end marker behind what they delivered, and whether the block
+                    // the item points into was freed meanwhile.
+                    let mut changed: Vec<[i64; 2]> = Vec::new();
+                    for i in 0..*len {
+                        if now[i] != saved[i] {
+                            match changed.last_mut() {
+                                Some(r) if r[1] + 1 == i as i64 => r[1] = i as i64,
+                                _ => changed.push([i as i64, i as i64]),
+                            }
+                        }
+                    }
+                    let mut windows: Vec<[i64; 2]> = wire.borrow().fills[*fills_mark..]
+                        .iter()
+                        .map(|(p, _cap, n)| [*p as i64 - *ptr as i64, *p as i64 + *n as i64 - *ptr as i64])
+                        .filter(|w| w[1] >= 0 && w[0] < *len as i64)
+                        .map(|w| [w[0].max(0), w[1].min(*len as i64 - 1)])
+                        .collect();
+                    windows.sort();
+                    let mut merged: Vec<[i64; 2]> = Vec::new();
+                    for w in windows {
+                        match merged.last_mut() {
+                            Some(m) if w[0] <= m[1] + 1 => m[1] = m[1].max(w[1]),
+                            _ => merged.push(w),
+                        }
+                    }
+                    let freed = crate::freed_since(*freed_mark, *ptr).unwrap_or(true);
+                    ev(json!({"ev":"check","k":k,"same":false,"freed":freed,"changed":changed,"windows":merged}));
+                }
+            }};
+        }
         loop {
             budget -= 1;
             if budget == 0 {
@@ -320,54 +393,15 @@ pub fn run(sc: &Scenario, stats: &mut Stats) {
                     }
                 }
             }
-            // what safe code sees when it looks at the items it still holds
-            for (k, _it, ptr, len, saved, fills_mark, freed_mark) in &held {
-                // The bytes the held reference points to (what `item.s` would read). They are read
-                // as plain bytes: after the defect under study they need not be UTF-8 any more.
-                let now = unsafe { std::slice::from_raw_parts(*ptr as *const u8, *len) };
-                stats.held_checks += 1;
-                let same = now == &saved[..];
-                if !same {
-                    stats.held_changed += 1;
-                }
-                if same {
-                    ev(json!({"ev":"check","k":k,"same":true}));
-                    continue;
-                }
-                // Measurements for the judgement of a change (all positions relative to the item's first byte):
-                // the runs of changed bytes, the memory the transport reads issued since the item was yielded
-                // were given to fill plus the end marker behind what they delivered, and whether the block
-                // the item points into was freed meanwhile.
-                let mut changed: Vec<[i64; 2]> = Vec::new();
-                for i in 0..*len {
-                    if now[i] != saved[i] {
-                        match changed.last_mut() {
-                            Some(r) if r[1] + 1 == i as i64 => r[1] = i as i64,
-                            _ => changed.push([i as i64, i as i64]),
-                        }
-                    }
-                }
-                let mut windows: Vec<[i64; 2]> = wire.borrow().fills[*fills_mark..]
-                    .iter()
-                    .map(|(p, _cap, n)| [*p as i64 - *ptr as i64, *p as i64 + *n as i64 - *ptr as i64])
-                    .filter(|w| w[1] >= 0 && w[0] < *len as i64)
-                    .map(|w| [w[0].max(0), w[1].min(*len as i64 - 1)])
-                    .collect();
-                windows.sort();
-                let mut merged: Vec<[i64; 2]> = Vec::new();
-                for w in windows {
-                    match merged.last_mut() {
-                        Some(m) if w[0] <= m[1] + 1 => m[1] = m[1].max(w[1]),
-                        _ => merged.push(w),
-                    }
-                }
-                let freed = crate::freed_since(*freed_mark, *ptr).unwrap_or(true);
-                ev(json!({"ev":"check","k":k,"same":false,"freed":freed,"changed":changed,"windows":merged}));
-            }
+            check_held!();
             if stop {
                 break;
             }
         }
+        // the items borrow from the connection, not from the stream object: they stay usable after the stream
+        // is gone (abandoned or finished) - look at them once more
+        drop(stream);
+        check_held!();
         drop(held);
     }
     if ended && !failed {
@@ -552,6 +586,15 @@ pub fn gen_drop_edges(r: &mut Rng, out: &mut Vec<Scenario>) {
 }
 
 pub fn gen_random(r: &mut Rng, sid: String, hold: bool) -> Scenario {
+    if !hold && r.chance(1, 30) && crate::buffer_max() >= 1 << 20 {
+        // a long burst: one `more` call answered by 33..90 continuing replies and a final one, everything
+        // available at once (the stream never has to wait in between)
+        let k = r.range(33, 90);
+        let mut frames: Vec<RFrame> = (0..k).map(|_| RFrame { call: 1, err: false, cont: true, pad: r.range(0, 6), gen: false }).collect();
+        frames.push(RFrame { call: 1, err: r.chance(1, 4), cont: false, pad: 0, gen: false });
+        frames.push(RFrame { call: 0, err: false, cont: false, pad: 3, gen: false });
+        return Scenario { sid, calls: vec!["more".to_string()], frames, steps: vec![], hold };
+    }
     let n = r.range(1, 6);
     let calls: Vec<String> = (0..n).map(|_| r.pick(&["plain", "oneway", "more", "plain", "more", "om"]).to_string()).collect();
     let ps = r.below(4);
@@ -570,7 +613,7 @@ pub fn gen_random(r: &mut Rng, sid: String, hold: bool) -> Scenario {
         st = 1;
     }
     sc.steps = gen_steps(r, &lens, st);
-    if !hold && r.chance(1, 5) && !sc.steps.is_empty() {
+    if r.chance(1, 5) && !sc.steps.is_empty() {
         // the consumer gives up somewhere on the way
         let at = r.range(0, sc.steps.len());
         sc.steps.truncate(at);
